@@ -789,17 +789,36 @@ def sym_exp2(x):
 class LogNum(SymNum):
     """A positive number f = 2**l represented by its base-2 logarithm l (a Real term).
 
-    Used for frequencies: log2(f*c) rewrites to l + log2(c) so that no
-    uninterpreted application is left behind.  ``e`` is an opaque positive Real
-    tied to l through the exp2 UF so that order comparisons still work.
+    Used for frequencies: log2(f*c) rewrites to l + log2(c) and order comparisons
+    with positive constants / other LogNums are done on the exponents, so that no
+    uninterpreted application is needed; ``e`` (the value itself) is created lazily
+    through the exp2 UF only when arithmetic on f is requested.
     """
-    __slots__ = ("l",)
+    __slots__ = ("l", "_e")
 
     def __init__(self, l, e=None):
-        if e is None:
-            e = sym_exp2(SymNum(l)).e
-        SymNum.__init__(self, e)
         self.l = l
+        self._e = e
+        self.grid = None
+        self.py = False
+
+    @property
+    def e(self):
+        if self._e is None:
+            self._e = sym_exp2(SymNum(self.l)).e
+        return self._e
+
+    def _cmp(self, o, op):
+        if isinstance(o, LogNum):
+            lo = o.l
+        elif isinstance(o, (int, float, _np.number)) and not isinstance(o, (bool, _np.bool_)) and math.isfinite(o):
+            if float(o) <= 0:
+                return {'lt': False, 'le': False, 'gt': True, 'ge': True, 'eq': False, 'ne': True}[op]
+            lo = z3.RealVal(fractions.Fraction(math.log2(float(o))))
+        else:
+            return SymNum._cmp(self, o, op)
+        l = self.l
+        return SymBool({'lt': l < lo, 'le': l <= lo, 'gt': l > lo, 'ge': l >= lo, 'eq': l == lo, 'ne': l != lo}[op])
 
     def __mul__(self, o):
         if isinstance(o, (int, float, _np.number)) and not isinstance(o, (bool, _np.bool_)) and float(o) > 0:
